@@ -17,6 +17,13 @@ fn last_row(fmt: &str) -> u32 { if fmt == "xls" { 65_535 } else { 1_048_575 } }
 /// patterns 0..32: every subset of rows 0..4; pattern 32: the last row of the format's grid and the one above it
 fn model(fmt: &str, pattern: u32, off: u32) -> Grid {
     let mut g = Grid::new();
+    if pattern == 33 {
+        // a formula whose cached result is the blank string is a value (String("")): alone on the first and on the last used row
+        g.insert((1, off), Data::String(String::new()));
+        g.insert((2, off), Data::Float(3.0));
+        g.insert((4, off + 1), Data::String(String::new()));
+        return g;
+    }
     if pattern == 32 {
         let l = last_row(fmt);
         g.insert((l - 1, off), Data::Float(7.0));
@@ -50,7 +57,7 @@ fn build(fmt: &str, g: &Grid, variant: u8) -> Vec<u8> {
             xlsb::write(&xlsb::BBook { sheets: vec![sh], ..Default::default() }, Method::Deflated)
         }
         "xls" => {
-            let cells = g.iter().map(|((r, c), v)| match v { Data::Float(f) => biff8::BCell::Number { r: *r as u16, c: *c as u16, xf: 0, v: *f }, Data::String(s) => biff8::BCell::Label { r: *r as u16, c: *c as u16, xf: 0, text: s.clone(), wide: false }, _ => biff8::BCell::Blank { r: *r as u16, c: *c as u16, xf: 0 } }).collect();
+            let cells = g.iter().map(|((r, c), v)| match v { Data::Float(f) => biff8::BCell::Number { r: *r as u16, c: *c as u16, xf: 0, v: *f }, Data::String(s) if s.is_empty() => biff8::BCell::Formula { r: *r as u16, c: *c as u16, xf: 0, res: biff8::FRes::EmptyStr, rgce: vec![0x17, 0, 0] }, Data::String(s) => biff8::BCell::Label { r: *r as u16, c: *c as u16, xf: 0, text: s.clone(), wide: false }, _ => biff8::BCell::Blank { r: *r as u16, c: *c as u16, xf: 0 } }).collect();
             let mut stream = biff8::workbook_stream(&biff8::BBook { sheets: vec![biff8::BSheet::new("S", cells)], ..Default::default() });
             if stream.len() < 4096 { stream.resize(4096, 0); }
             cfb::simple(&[("Workbook", stream)], &cfb::Layout::default())
@@ -138,7 +145,7 @@ pub fn check(rep: &Report) {
     if t { for a in &opts { for b in &opts { for c in &opts { hists.push(vec![*a, *b, *c]); } } } }
     else { for a in small { for b in small { for c in small { hists.push(vec![a, b, c]); } } } }
     let mut jobs = vec![];
-    for f in FORMATS { for p in 0..33u32 { for off in [0u32, 2] { for variant in [0u8, 1, 2] { if (variant == 1 && (f == "xls" || f == "ods")) || (variant == 2 && f != "xlsx") { continue; } jobs.push((f, p, off, variant)); } } } }
+    for f in FORMATS { for p in 0..34u32 { if p == 33 && f != "xls" { continue; } for off in [0u32, 2] { for variant in [0u8, 1, 2] { if (variant == 1 && (f == "xls" || f == "ods")) || (variant == 2 && f != "xlsx") { continue; } jobs.push((f, p, off, variant)); } } } }
     let nh = hists.len() as u64;
     jobs.par_iter().for_each(|(fmt, p, off, variant)| {
         let stale = &(*variant == 1);
